@@ -56,6 +56,7 @@ type c09Deposit struct {
 	amt      int64
 	denom    string
 	base     string
+	hookGood bool // valid recipient and a signed hook [withdraw 1, send 1 to bob] that succeeds: credited, one announced withdrawal
 	hookFail bool // valid recipient, but the deposit's hook fails (amount 1: undecodable bytes; amount 2: signed [withdraw 1, send too much]): minted, reclaimed, burnt, refunded
 }
 type c09Send struct{}
@@ -102,14 +103,15 @@ func (c09Sys) Letters(s *c09State) []engine.Letter {
 		for _, amt := range []int64{1, 2} {
 			for _, den := range []string{c09L2x, c09L2y} {
 				for _, base := range []string{"uxx", "uzz"} {
-					ls = append(ls, engine.Letter{Name: fmt.Sprintf("Deposit(validRecipient=%v,%d%s,base=%s)", valid, amt, dn(den), base), Data: c09Deposit{valid, amt, den, base, false}})
+					ls = append(ls, engine.Letter{Name: fmt.Sprintf("Deposit(validRecipient=%v,%d%s,base=%s)", valid, amt, dn(den), base), Data: c09Deposit{valid: valid, amt: amt, denom: den, base: base}})
 				}
 			}
 		}
 	}
 	for _, amt := range []int64{1, 2} {
-		ls = append(ls, engine.Letter{Name: fmt.Sprintf("Deposit(validRecipient=true,hook=failing,%dl2x,base=uxx)", amt), Data: c09Deposit{true, amt, c09L2x, "uxx", true}})
+		ls = append(ls, engine.Letter{Name: fmt.Sprintf("Deposit(validRecipient=true,hook=failing,%dl2x,base=uxx)", amt), Data: c09Deposit{valid: true, amt: amt, denom: c09L2x, base: "uxx", hookFail: true}})
 	}
+	ls = append(ls, engine.Letter{Name: "Deposit(validRecipient=true,hook=[withdraw 1; send 1 to bob],2l2x,base=uxx)", Data: c09Deposit{valid: true, amt: 2, denom: c09L2x, base: "uxx", hookGood: true}})
 	ls = append(ls, engine.Letter{Name: "Send(alice->bob,1l2x)", Data: c09Send{}})
 	ls = append(ls, engine.Letter{Name: "RestartViaGenesis", Data: c09Restart{}})
 	for _, by := range c09Accts {
@@ -172,6 +174,17 @@ func (c09Sys) Step(s *c09State, l engine.Letter) (*c09State, string, *engine.Vio
 				data = signHookTx(s.w, msgs, key, key.PubKey(), acc.GetAccountNumber(), acc.GetSequence(), ctx.ChainID())
 			}
 		}
+		if d.hookGood {
+			if acc := s.w.AK.GetAccount(ctx, world.Addr("alice")); acc != nil {
+				alice := world.Addr("alice")
+				key := world.SecpKey("alice")
+				msgs := []sdk.Msg{
+					opchildtypes.NewMsgInitiateTokenWithdrawal(alice.String(), " l1 recipient\n", sdk.NewInt64Coin(d.denom, 1)),
+					banktypes.NewMsgSend(alice, world.Addr("bob"), sdk.NewCoins(sdk.NewInt64Coin(d.denom, 1))),
+				}
+				data = signHookTx(s.w, msgs, key, key.PubKey(), acc.GetAccountNumber(), acc.GetSequence(), ctx.ChainID())
+			}
+		}
 		msg := opchildtypes.NewMsgFinalizeTokenDeposit(world.Addr("executor").String(), "l1sender", to, sdk.NewInt64Coin(d.denom, d.amt), s.nextL1, 7, d.base, data)
 		res := s.w.Deliver(ctx, msg)
 		if !res.OK() {
@@ -181,8 +194,11 @@ func (c09Sys) Step(s *c09State, l engine.Letter) (*c09State, string, *engine.Vio
 		// frame of a processed deposit: both sequences, the first registration of the denom, the recipient's
 		// balance and the supply of that denom; with a hook, the hook signer's account sequence
 		fr := frameL2{accounts: map[string]sdk.AccAddress{"alice": world.Addr("alice")}, denoms: []string{d.denom}, nextL1: true, nextL2: true, pairOf: []string{d.denom}}
-		if d.hookFail {
+		if d.hookFail || d.hookGood {
 			fr.sequenceOf = []sdk.AccAddress{world.Addr("alice")}
+		}
+		if d.hookGood {
+			fr.accounts["bob"] = world.Addr("bob")
 		}
 		if left := fr.violations(s.w, s.ctx, ctx); len(left) > 0 {
 			return c, "framed", tagged(viol("deposit-touches-nothing-else", "a processed deposit of %d%s (valid recipient=%v, failing hook=%v) also changed: %s", d.amt, dn(d.denom), d.valid, d.hookFail, strings.Join(left, "; ")), "frame", "deposit")
@@ -193,6 +209,19 @@ func (c09Sys) Step(s *c09State, l engine.Letter) (*c09State, string, *engine.Vio
 			first = d.base
 		}
 		wevs := world.EventsOfType(res.Events, "initiate_token_withdrawal")
+		if d.hookGood {
+			// credited 2, then the hook withdrew 1 (announced once, at the shared sequence) and sent 1 on
+			if len(wevs) != 1 {
+				return c, "credited-hook", tagged(viol("withdrawal-announced-once", "a succeeding hook withdrew 1%s but the transaction carries %d withdrawal events", dn(d.denom), len(wevs)), "where", "hook")
+			}
+			if v := c09CheckWithdrawEvent(wevs[0], world.Addr("alice").String(), " l1 recipient\n", d.denom, first, 1, s.nextL2); v != nil {
+				return c, "credited-hook", v
+			}
+			c.nextL2++
+			c.bal["bob/"+d.denom]++
+			c.supply[d.denom]++
+			return c, "credited-hook", nil
+		}
 		if d.valid && d.hookFail {
 			if len(wevs) != 1 {
 				return c, "refunded", viol("refund-records-one-withdrawal", "%d withdrawal events for a deposit whose hook failed", len(wevs))
